@@ -93,6 +93,13 @@ def gen_repo_world(t, family):
     # the root directory may be a symbolic link: every path of the world keeps the link spelling, os.path.realpath()
     # would give another spelling of the same files - one file is still one model
     w.declare_source = t.chance(1, 3, "a-parameter-called-source-is-declared")
+    # user classes whose instances are false in a boolean context or compare equal by value: the repositories and the
+    # lookups have to go by identity and by "is not None"
+    w.ucls = []
+    if t.chance(1, 3, "user-classes"):
+        for name in ("Model", "Def", "Box", "Use", "Import"):
+            if t.chance(1, 2, "ucls-" + name):
+                w.ucls.append((name, t.pick(["plain", "falsy", "value-eq", "falsy"] if name != "Import" else ["plain", "falsy"], "ucls-variant")))
     w.symlinked = t.chance(1, 5, "root-directory-is-a-symlink")
     if w.symlinked:
         SIMFS.aliases = [(ROOT, "/sim/real-w4")]
@@ -333,6 +340,13 @@ def gen_repo_world(t, family):
     return w
 
 
+def _user_classes(spec):
+    from .w1_resolve import _NullRec
+    from .w2_lifecycle import make_class
+
+    return [make_class(n, v, _NullRec()) for n, v in spec]
+
+
 class InjectedProcError(Exception):
     """an application-defined exception raised by a processor (not derived from TextXError)"""
 
@@ -408,6 +422,8 @@ class Sys:
         rrel = None
         if fam == "rrel":
             rrel = "+m:^items*"
+        if getattr(w, "ucls", None):
+            kw["classes"] = _user_classes(w.ucls)
         self.mm = metamodel_from_str(grammar(rrel=rrel), **kw)
         self.mm.model_param_defs.add("p1", "first parameter")
         self.mm.model_param_defs.add("p2", "second parameter")
@@ -450,6 +466,8 @@ class Sys:
                 kw2["builtin_models"] = kw["builtin_models"]
             if getattr(w, "mm2_repo", False):
                 kw2["global_repository"] = True
+            if getattr(w, "ucls", None):
+                kw2["classes"] = _user_classes(w.ucls)
             self.mm2 = metamodel_from_str(grammar(rrel=rrel), **kw2)
             base2 = {"plainuri": lambda: sp.PlainNameImportURI(glob_args=gargs),
                      "fqnuri": lambda: sp.FQNImportURI(glob_args=gargs),
@@ -630,7 +648,7 @@ def run(ctx):
         "files": {os.path.relpath(p, ROOT): fe.text for p, fe in w.files.items()},
         "imports": {os.path.relpath(k[0], ROOT) + "#" + str(k[1]): [os.path.relpath(x, ROOT) for x in v]
                     for k, v in w.targets.items()},
-        "two_languages": getattr(w, "two_langs", False),
+        "two_languages": getattr(w, "two_langs", False), "user_classes": [list(x) for x in getattr(w, "ucls", [])],
         "same_name_in_unrelated_files": [(os.path.relpath(a, ROOT), os.path.relpath(b, ROOT), n)
                                          for a, b, n in getattr(w, "unrelated", [])], "gr_patterns": w.gr_patterns, "shadows": [(os.path.relpath(a, ROOT), os.path.relpath(b, ROOT), n)
                                                   for a, b, n in getattr(w, "shadows", [])],
